@@ -6,6 +6,7 @@ import CimbaModel.HashHeap.Orders
 import CimbaModel.HashHeap.GuardOrder
 import CimbaModel.HashHeap.Hash
 import CimbaModel.HashHeap.Inv
+import CimbaModel.HashHeap.RefineSpec
 
 namespace CimbaModel.Props.C02
 open CimbaModel CimbaModel.HashHeap CimbaModel.Generated CimbaModel.KPQ
@@ -29,5 +30,364 @@ theorem hash_key_in_range (s : HH) (k : Nat) (h : s.exp < 63) : hash_key s k < 2
 
 theorem item_match_is_model (t : HTag) (p : Item) : item_match t p.a p.b p.c p.d = itemMatch t p :=
   item_match_eq t p
+
+/-! ### none of the library's ordering functions looks at the hash back-pointer of a tag
+    (needed for capacity doublings, which re-home every entry in the hash map) -/
+
+theorem event_order_ignores_hidx : IgnoresHidx heap_order_check := inferInstance
+theorem guard_order_ignores_hidx : IgnoresHidx guard_queue_check := inferInstance
+theorem holder_order_ignores_hidx : IgnoresHidx holder_queue_check := inferInstance
+theorem pq_order_ignores_hidx : IgnoresHidx compare_func := inferInstance
+theorem default_order_ignores_hidx : IgnoresHidx default_order_check := inferInstance
+
+/-! ### refinement: every operation of the concrete hashheap, on a well-formed state, never faults, keeps the
+    state well-formed and acts on the abstraction `abs s : KPQ` as the keyed-priority-queue specification says.
+
+    `lt` is an arbitrary strict weak order.  Where a capacity doubling can happen (`enqueue`) and where the
+    statement compares back-pointer-free copies of the tags (`IsMin … (abs s)`), `lt` must not look at the hash
+    back-pointer (`IgnoresHidx lt`; all five ordering functions of the library satisfy it, see above).  This
+    hypothesis is necessary: `grow` re-homes every entry, so an order that inspected `hash_index` would see a
+    different heap afterwards. -/
+
+section refinement
+variable {lt : Order}
+
+theorem init_WF (e : Nat) (h1 : 1 ≤ e) (h31 : e ≤ 31) : ∃ s, init e = .ok s ∧ WF lt s ∧ abs s = [] := by
+  obtain ⟨s, h, hwf, habs, _⟩ := init_spec (lt := lt) e h1 h31
+  exact ⟨s, h, hwf, habs⟩
+
+/-- live keys are pairwise distinct -/
+theorem keys_nodup {s : HH} (h : WF lt s) : (keys (abs s)).Nodup := h.keys_nodup
+
+/-- live keys are non-zero 64-bit values -/
+theorem keys_valid {s : HH} (h : WF lt s) {k : Nat} (hk : k ∈ keys (abs s)) : k ≠ 0 ∧ k < 2 ^ 64 := h.keys_ne_zero hk
+
+/-- the count is the number of live keys -/
+theorem count_eq (s : HH) : (abs s).length = s.count := abs_length s
+
+/-- the hash map always has a free slot, so `hash_find_slot` (a loop without exit in the C code) terminates -/
+theorem free_slot_exists {s : HH} (h : WF lt s) : ∃ j, j < s.hash.size ∧ (s.slot j).idx = 0 := by
+  rw [h.hashSize]
+  have hpow : 2 ^ (s.exp + 1) = 2 * 2 ^ s.exp := by rw [Nat.pow_succ]; omega
+  have := h.countLe
+  exact h.wfs.exists_free s.count (fun i hi => hi.2) (by have := two_pow_pos s.exp; omega)
+
+/-- `cmi_hash_find_index` returns the heap index of a live key and 0 for any other key: the first key match on
+    the probe path is the live slot, never a stale tombstone of an earlier incarnation of the key -/
+theorem findIndex_correct {s : HH} (h : WF lt s) (k : Nat) :
+    (k ∈ keys (abs s) → ∃ i, findIndex s k = .ok i ∧ 1 ≤ i ∧ i ≤ s.count ∧ (s.tag i).key = k) ∧
+    (k ∉ keys (abs s) → findIndex s k = .ok 0) := by
+  constructor
+  · intro hk
+    obtain ⟨i, hi, rfl⟩ := (mem_keys_abs s k).1 hk
+    exact ⟨i, findIndex_of_mem h hi, hi.1, hi.2, rfl⟩
+  · exact fun hk => findIndex_of_not_mem h hk
+
+theorem enqueue_refines [StrictWeak lt] [IgnoresHidx lt] {s : HH} (h : WF lt s) (it : Item) (k : Nat) (d i : Int) :
+    let k' := if k = 0 then s.counter + 1 else k
+    k' ≠ 0 → k' < 2 ^ 64 → k' ∉ keys (abs s) → (s.count < 2 ^ s.exp ∨ s.exp < 31) →
+    ∃ s', enqueue lt s it k d i = .ok (s', k') ∧ WF lt s' ∧
+      (abs s').Perm (KPQ.insert (abs s) ⟨k', 0, it, d, i⟩) ∧ s'.counter = s.counter + 1 := by
+  intro k' h0 h64 hf hroom
+  obtain ⟨s', hrun, hwf, hperm, hct, _⟩ := enqueue_abs h it k d i h0 h64 hf hroom
+  exact ⟨s', hrun, hwf, hperm, hct⟩
+
+/-- without a capacity doubling no assumption on the order beyond strict weak is needed -/
+theorem enqueue_refines_no_growth [StrictWeak lt] {s : HH} (h : WF lt s) (it : Item) (k : Nat) (d i : Int) :
+    let k' := if k = 0 then s.counter + 1 else k
+    k' ≠ 0 → k' < 2 ^ 64 → k' ∉ keys (abs s) → s.count < 2 ^ s.exp →
+    ∃ s', enqueue lt s it k d i = .ok (s', k') ∧ WF lt s' ∧
+      (abs s').Perm (KPQ.insert (abs s) ⟨k', 0, it, d, i⟩) ∧ s'.counter = s.counter + 1 ∧ s'.exp = s.exp := by
+  intro k' h0 h64 hf hroom
+  have hg := growOK_of_room h hroom
+  obtain ⟨s', hrun, hwf, hperm, hct, _, hexp, hc⟩ := enqueue_abs_of_grow h it k d i h0 h64 hf hg
+  refine ⟨s', hrun, hwf, hperm, hct, ?_⟩
+  -- the exponent is unchanged: read it off the run
+  have hne : s.count ≠ 2 ^ s.exp := by omega
+  rw [enqueue_eq, if_neg (by have := h.countLe; omega), if_neg hne] at hrun
+  obtain ⟨p, s2, hrun2, _, _, he2, _⟩ := enqueueCore_spec h hroom it k d i k' rfl h0 h64
+    (fun j hj he => hf ((mem_keys_abs s k').2 ⟨j, hj, he⟩))
+  have : (Except.ok (s2, k') : Except Fault (HH × Nat)) = .ok (s', k') := by
+    rw [← hrun2]; exact hrun
+  injection this with this
+  injection this with this
+  subst this
+  exact he2
+
+theorem dequeue_refines [StrictWeak lt] [IgnoresHidx lt] {s : HH} (h : WF lt s) (hpos : 0 < s.count) :
+    ∃ s' e, dequeue lt s = .ok (s', some e) ∧ WF lt s' ∧ IsMin lt (abs s) (norm e) ∧
+      (abs s).Perm (norm e :: abs s') := by
+  obtain ⟨s', hrun, hwf, hperm, _⟩ := dequeue_abs h hpos
+  exact ⟨s', s.tag 1, hrun, hwf, root_isMin_abs h hpos, hperm⟩
+
+/-- the same for an arbitrary strict weak order, minimality stated on the tags as stored -/
+theorem dequeue_refines_raw [StrictWeak lt] {s : HH} (h : WF lt s) (hpos : 0 < s.count) :
+    ∃ s' e, dequeue lt s = .ok (s', some e) ∧ WF lt s' ∧ IsMin lt (liveTags s) e ∧
+      (abs s).Perm (norm e :: abs s') := by
+  obtain ⟨s', hrun, hwf, hperm, _⟩ := dequeue_abs h hpos
+  exact ⟨s', s.tag 1, hrun, hwf, root_isMin h hpos, hperm⟩
+
+theorem dequeue_empty (s : HH) (h0 : s.count = 0) : dequeue lt s = .ok (s, none) := by
+  simp [dequeue, h0]
+
+theorem peek_correct [StrictWeak lt] [IgnoresHidx lt] {s : HH} (h : WF lt s) (hpos : 0 < s.count) :
+    ∃ t, peek s = .ok (some t) ∧ IsMin lt (abs s) (norm t) :=
+  ⟨s.tag 1, peek_spec h hpos, root_isMin_abs h hpos⟩
+
+theorem peek_correct_raw [StrictWeak lt] {s : HH} (h : WF lt s) (hpos : 0 < s.count) :
+    ∃ t, peek s = .ok (some t) ∧ IsMin lt (liveTags s) t :=
+  ⟨s.tag 1, peek_spec h hpos, root_isMin h hpos⟩
+
+theorem peek_empty (s : HH) (h0 : s.count = 0) : peek s = .ok none := by
+  simp [peek, h0]
+
+theorem remove_refines [StrictWeak lt] {s : HH} (h : WF lt s) (k : Nat) (hk0 : k ≠ 0) :
+    ∃ s', remove lt s k = .ok (s', decide (k ∈ keys (abs s))) ∧ WF lt s' ∧
+      (abs s').Perm (KPQ.remove (abs s) k) := by
+  obtain ⟨s', hrun, hwf, hperm, _⟩ := remove_abs h k hk0
+  exact ⟨s', hrun, hwf, hperm⟩
+
+theorem reprio_refines [StrictWeak lt] {s : HH} (h : WF lt s) {k : Nat} (hk : k ∈ keys (abs s)) (d i : Int) :
+    ∃ s', reprioritize lt s k d i = .ok s' ∧ WF lt s' ∧ (abs s').Perm (KPQ.reprio (abs s) k d i) := by
+  obtain ⟨s', hrun, hwf, hperm, _⟩ := reprio_abs h hk d i
+  exact ⟨s', hrun, hwf, hperm⟩
+
+/-- a payload (and the sort keys) stay attached to their key however entries move inside the structure -/
+theorem lookup_correct {s : HH} (h : WF lt s) {k : Nat} (hk : k ∈ keys (abs s)) :
+    ∃ t, lookup s k = .ok t ∧ KPQ.lookup (abs s) k = some (norm t) := lookup_spec h hk
+
+theorem isEnqueued_correct {s : HH} (h : WF lt s) (k : Nat) (hk0 : k ≠ 0) :
+    isEnqueued s k = .ok (decide (k ∈ keys (abs s))) := isEnqueued_spec h k hk0
+
+theorem patternCount_correct (s : HH) (p : Item) : patternCount s p = (matching (abs s) p).length :=
+  patternCount_spec s p
+
+/-- `pattern_find` returns 0 exactly when nothing matches, otherwise the key of a matching entry -/
+theorem patternFind_correct {s : HH} (h : WF lt s) (p : Item) :
+    (patternFind s p = 0 ↔ matching (abs s) p = []) ∧
+    (patternFind s p ≠ 0 → ∃ t, t ∈ matching (abs s) p ∧ t.key = patternFind s p) := patternFind_spec h p
+
+theorem patternCancel_refines [StrictWeak lt] {s : HH} (h : WF lt s) (p : Item) :
+    ∃ s', patternCancel lt s p = .ok (s', (matching (abs s) p).length) ∧ WF lt s' ∧
+      (abs s').Perm (removeMatching (abs s) p) := by
+  obtain ⟨s', hrun, hwf, hperm, _⟩ := patternCancel_abs h p
+  exact ⟨s', hrun, hwf, hperm⟩
+
+theorem clear_refines {s : HH} (h : WF lt s) : WF lt (clear s) ∧ abs (clear s) = [] ∧ (clear s).counter = s.counter :=
+  ⟨(clear_spec h).1, (clear_spec h).2.1, (clear_spec h).2.2.1⟩
+
+theorem reset_refines {s : HH} (h : WF lt s) :
+    ∃ s', reset s = .ok s' ∧ WF lt s' ∧ abs s' = [] ∧ s'.counter = s.counter := by
+  obtain ⟨s', hrun, hwf, habs, hct, _⟩ := reset_spec h
+  exact ⟨s', hrun, hwf, habs, hct⟩
+
+/-- any operation sequence whose operations meet their documented preconditions keeps the state well-formed
+    and never faults (no out-of-bounds access, no library abort, `hash_find_slot` terminates), across any
+    number of capacity doublings -/
+theorem run_preserves_WF [StrictWeak lt] [IgnoresHidx lt] {s : HH} (h : WF lt s) (ops : List Op)
+    (hpre : PreAll lt s ops) : ∃ s', run lt s ops = .ok s' ∧ WF lt s' := run_WF ops h hpre
+
+theorem reachable_WF [StrictWeak lt] [IgnoresHidx lt] (e : Nat) (h1 : 1 ≤ e) (h31 : e ≤ 31) (ops : List Op) :
+    ∃ s0, init e = .ok s0 ∧ (PreAll lt s0 ops → ∃ s', run lt s0 ops = .ok s' ∧ WF lt s') := by
+  obtain ⟨s0, hinit, hwf, _⟩ := init_spec (lt := lt) e h1 h31
+  exact ⟨s0, hinit, fun hpre => run_WF ops hwf hpre⟩
+
+/-- one operation with its observable result is a step of the keyed-priority-queue specification `SpecStep`
+    (HashHeap/RefineTrace.lean) on the abstraction -/
+theorem op_refines_spec [StrictWeak lt] [IgnoresHidx lt] {s : HH} (h : WF lt s) (op : Op) (hpre : OpPre s op) :
+    ∃ s' r, stepR lt s op = .ok (s', r) ∧ WF lt s' ∧ SpecStep lt (abs s, s.counter) op r (abs s', s'.counter) :=
+  step_refines h op hpre
+
+/-- C02 for whole histories: from any initial exponent, every operation sequence whose operations meet their
+    preconditions runs without fault, and the observable results (keys issued, tags dequeued / peeked / looked up
+    without their internal back-pointer, removal and membership answers, pattern counts and finds) form a run of
+    the specification started from the empty queue -/
+theorem history_refines_spec [StrictWeak lt] [IgnoresHidx lt] (e : Nat) (h1 : 1 ≤ e) (h31 : e ≤ 31) (ops : List Op) :
+    ∃ s0, init e = .ok s0 ∧ (PreAll lt s0 ops →
+      ∃ s' rs, runR lt s0 ops = .ok (s', rs) ∧ WF lt s' ∧ SpecRun lt ([], 0) ops rs (abs s', s'.counter)) := by
+  obtain ⟨s0, hinit, hwf, habs, hct, _⟩ := init_spec (lt := lt) e h1 h31
+  refine ⟨s0, hinit, fun hpre => ?_⟩
+  obtain ⟨s', rs, hrun, hwf', hspec⟩ := run_refines ops hwf hpre
+  rw [habs, hct] at hspec
+  exact ⟨s', rs, hrun, hwf', hspec⟩
+
+/-- the specification does not depend on the order in which the abstract queue lists its entries: whatever is
+    possible from `q` is possible, with the same result and a permutation of the same successor, from every
+    permutation of `q` -/
+theorem spec_perm_invariant {q1 q2 : KPQ} {c : Nat} {op : Op} {r : Res} {y : KPQ × Nat}
+    (hp : q1.Perm q2) (hnd : (keys q1).Nodup) (h : SpecStep lt (q1, c) op r y) :
+    ∃ q', SpecStep lt (q2, c) op r (q', y.2) ∧ q'.Perm y.1 := SpecStep.perm_left hp hnd h
+
+/-! #### a payload stays attached to its key: what a lookup by key reports after each updating operation -/
+
+theorem payload_sticks_enqueue [StrictWeak lt] [IgnoresHidx lt] {s : HH} (h : WF lt s) (it : Item) (k : Nat) (d i : Int) :
+    let k' := if k = 0 then s.counter + 1 else k
+    k' ≠ 0 → k' < 2 ^ 64 → k' ∉ keys (abs s) → (s.count < 2 ^ s.exp ∨ s.exp < 31) →
+    ∃ s', enqueue lt s it k d i = .ok (s', k') ∧
+      KPQ.lookup (abs s') k' = some ⟨k', 0, it, d, i⟩ ∧
+      ∀ k2, k2 ≠ k' → KPQ.lookup (abs s') k2 = KPQ.lookup (abs s) k2 := by
+  intro k' h0 h64 hf hroom
+  obtain ⟨s', hrun, hwf, hperm, _⟩ := enqueue_abs h it k d i h0 h64 hf hroom
+  exact ⟨s', hrun, lookup_after_insert h hwf ⟨k', 0, it, d, i⟩ hperm⟩
+
+theorem payload_sticks_remove [StrictWeak lt] {s : HH} (h : WF lt s) (k : Nat) (hk0 : k ≠ 0) :
+    ∃ s' b, remove lt s k = .ok (s', b) ∧ KPQ.lookup (abs s') k = none ∧
+      ∀ k2, k2 ≠ k → KPQ.lookup (abs s') k2 = KPQ.lookup (abs s) k2 := by
+  obtain ⟨s', hrun, hwf, hperm, _⟩ := remove_abs h k hk0
+  exact ⟨s', _, hrun, lookup_after_remove h hwf k hperm⟩
+
+theorem payload_sticks_reprio [StrictWeak lt] {s : HH} (h : WF lt s) {k : Nat} (hk : k ∈ keys (abs s)) (d i : Int) :
+    ∃ s', reprioritize lt s k d i = .ok s' ∧
+      KPQ.lookup (abs s') k = (KPQ.lookup (abs s) k).map (fun t => { t with d := d, i := i }) ∧
+      ∀ k2, k2 ≠ k → KPQ.lookup (abs s') k2 = KPQ.lookup (abs s) k2 := by
+  obtain ⟨s', hrun, hwf, hperm, _⟩ := reprio_abs h hk d i
+  exact ⟨s', hrun, lookup_after_reprio h hwf k d i hperm⟩
+
+theorem payload_sticks_dequeue [StrictWeak lt] {s : HH} (h : WF lt s) (hpos : 0 < s.count) :
+    ∃ s' e, dequeue lt s = .ok (s', some e) ∧ KPQ.lookup (abs s) e.key = some (norm e) ∧
+      KPQ.lookup (abs s') e.key = none ∧
+      ∀ k, k ≠ e.key → KPQ.lookup (abs s') k = KPQ.lookup (abs s) k := by
+  obtain ⟨s', hrun, hwf, hperm, _⟩ := dequeue_abs h hpos
+  refine ⟨s', s.tag 1, hrun, ?_, lookup_after_dequeue h hwf (norm (s.tag 1)) hperm⟩
+  rw [lookup_eq_some_iff h.keys_nodup]
+  exact ⟨hperm.mem_iff.2 List.mem_cons_self, rfl⟩
+
+/-- the concrete accessor agrees: if the abstract lookup of a live key is unchanged between two well-formed
+    states, `lookup` (the common part of `cmi_hashheap_item/dkey/ikey`) returns the same payload and sort keys -/
+theorem payload_sticks_concrete {s s' : HH} (h : WF lt s) (h' : WF lt s') {k : Nat} (hk : k ∈ keys (abs s))
+    (heq : KPQ.lookup (abs s') k = KPQ.lookup (abs s) k) :
+    ∃ t t', lookup s k = .ok t ∧ lookup s' k = .ok t' ∧ norm t' = norm t := by
+  obtain ⟨t, hrun, hl⟩ := lookup_spec h hk
+  have hk' : k ∈ keys (abs s') := by
+    apply Classical.byContradiction
+    intro hn
+    rw [(lookup_eq_none_iff _ _).2 hn, hl] at heq
+    cases heq
+  obtain ⟨t', hrun', hl'⟩ := lookup_spec h' hk'
+  refine ⟨t, t', hrun, hrun', ?_⟩
+  rw [hl, hl'] at heq
+  exact Option.some.inj heq
+
+/-! #### automatically issued keys, re-insertion after removal, uniqueness of the minimum -/
+
+/-- as long as no live key is above the item counter (callers pass key 0, or keys not above the next automatic
+    one), the freshness precondition of `enqueue` holds by itself for key 0, and the invariant is kept -/
+theorem auto_key_enqueue_refines [StrictWeak lt] [IgnoresHidx lt] {s : HH} (h : WF lt s) (hkb : KeysBelowCounter s)
+    (it : Item) (d i : Int) (hctr : s.counter + 1 < 2 ^ 64) (hroom : s.count < 2 ^ s.exp ∨ s.exp < 31) :
+    ∃ s', enqueue lt s it 0 d i = .ok (s', s.counter + 1) ∧ WF lt s' ∧
+      (abs s').Perm (KPQ.insert (abs s) ⟨s.counter + 1, 0, it, d, i⟩) ∧ KeysBelowCounter s' := by
+  obtain ⟨s', hrun, hwf, hperm, _, hkb', _⟩ :=
+    auto_enqueue h hkb it 0 d i (Nat.zero_le _) hctr (fun h0 => absurd rfl h0) hroom
+  exact ⟨s', hrun, hwf, hperm, hkb'⟩
+
+/-- a key removed from the queue can be enqueued again (its tombstone is still in the hash map): the new entry
+    is found, the old payload is gone -/
+theorem reinsert_after_remove [StrictWeak lt] {s : HH} (h : WF lt s) {k : Nat} (hk : k ∈ keys (abs s))
+    (it : Item) (d i : Int) :
+    ∃ s1 s2, remove lt s k = .ok (s1, true) ∧ enqueue lt s1 it k d i = .ok (s2, k) ∧ WF lt s2 ∧
+      (abs s2).Perm (KPQ.insert (KPQ.remove (abs s) k) ⟨k, 0, it, d, i⟩) ∧
+      KPQ.lookup (abs s2) k = some ⟨k, 0, it, d, i⟩ := by
+  obtain ⟨hk0, hk64⟩ := h.keys_ne_zero hk
+  obtain ⟨s1, hrun1, hwf1, hperm1, hexp1, _, _, hc1⟩ := remove_abs h k hk0
+  have hnot : k ∉ keys (abs s1) := by
+    intro hm
+    rw [keys_perm hperm1] at hm
+    obtain ⟨x, hx, hxk⟩ := List.mem_map.1 hm
+    exact of_decide_eq_true (List.mem_filter.1 hx).2 hxk
+  have hpos : 0 < s.count := by
+    obtain ⟨j, hj, _⟩ := (mem_keys_abs s k).1 hk
+    have := hj.1; have := hj.2; omega
+  have hroom : s1.count < 2 ^ s1.exp := by
+    rw [hc1, if_pos hk, hexp1]; have := h.countLe; omega
+  have hk' : (if k = 0 then s1.counter + 1 else k) = k := if_neg hk0
+  obtain ⟨s2, hrun2, hwf2, hperm2, _⟩ := enqueue_abs_of_grow hwf1 it k d i (by rw [hk']; exact hk0)
+    (by rw [hk']; exact hk64) (by rw [hk']; exact hnot) (growOK_of_room hwf1 hroom)
+  rw [hk'] at hrun2 hperm2
+  refine ⟨s1, s2, by rw [hrun1]; simp [hk], hrun2, hwf2, ?_, (lookup_after_insert hwf1 hwf2 _ hperm2).1⟩
+  exact hperm2.trans (List.Perm.cons _ hperm1)
+
+/-- with an ordering that is total on distinct keys (the event queue, the waiting lists, the holder list and the
+    object priority queue all have one) the entry returned by `dequeue` goes strictly before every other entry -/
+theorem dequeue_strict_min [TotalOnKeys lt] [IgnoresHidx lt] {s : HH} (h : WF lt s) (hpos : 0 < s.count) :
+    ∃ s' e, dequeue lt s = .ok (s', some e) ∧ WF lt s' ∧ (abs s).Perm (norm e :: abs s') ∧
+      ∀ x, x ∈ abs s' → lt (norm e) x = true := by
+  obtain ⟨s', hrun, hwf, hperm, _⟩ := dequeue_abs h hpos
+  refine ⟨s', s.tag 1, hrun, hwf, hperm, ?_⟩
+  intro x hx
+  have hmin := root_isMin_abs h hpos
+  have hxs : x ∈ abs s := hperm.mem_iff.2 (List.mem_cons_of_mem _ hx)
+  have hnd : (norm (s.tag 1) :: abs s').Nodup := hperm.nodup_iff.1 h.abs_nodup
+  have hne : x ≠ norm (s.tag 1) := fun he => (List.nodup_cons.1 hnd).1 (he ▸ hx)
+  have hk : (norm (s.tag 1)).key ≠ x.key := fun hk => hne (eq_of_key_eq h.keys_nodup hxs hmin.1 hk.symm)
+  rcases TotalOnKeys.total (lt := lt) _ _ hk with hlt | hlt
+  · exact hlt
+  · rw [hmin.2 x hxs] at hlt; cases hlt
+
+/-- … and is therefore the only entry `dequeue` / `peek` may return -/
+theorem min_unique [TotalOnKeys lt] {s : HH} (h : WF lt s) {e e' : HTag}
+    (he : IsMin lt (abs s) e) (he' : IsMin lt (abs s) e') : e = e' := isMin_unique h.keys_nodup he he'
+
+end refinement
+
+/-! ### the hypotheses are satisfiable -/
+
+/-- a well-formed non-empty state exists (built by the theorems themselves), so the hypotheses `WF lt s`,
+    `0 < s.count`, `k ∈ keys (abs s)` of the theorems above are satisfiable -/
+example : ∃ s : HH, WF default_order_check s ∧ 0 < s.count ∧ 5 ∈ keys (abs s) := by
+  obtain ⟨s0, _, hwf0, habs0, _, hexp, _⟩ := init_spec (lt := default_order_check) 1 (by decide) (by decide)
+  have hc0 : s0.count = 0 := by rw [← abs_length, habs0]; rfl
+  obtain ⟨s1, _, hwf1, hperm, _⟩ := enqueue_refines hwf0 {} 5 0 0 (by simp) (by simp)
+    (by rw [habs0]; simp [keys]) (Or.inl (by rw [hc0]; exact two_pow_pos _))
+  refine ⟨s1, hwf1, ?_, ?_⟩
+  · rw [← abs_length, hperm.length_eq]; simp [KPQ.insert]
+  · have : (⟨5, 0, {}, 0, 0⟩ : HTag) ∈ abs s1 := hperm.mem_iff.2 (by simp [KPQ.insert, norm])
+    exact List.mem_map.2 ⟨_, this, rfl⟩
+
+/-- the precondition of a whole run is satisfiable: enqueue (auto key 1), reprioritize it, remove it, dequeue
+    on a fresh heap -/
+example : ∃ s0, init 1 = .ok s0 ∧
+    PreAll default_order_check s0 [.enqueue {} 0 3 0, .reprio 1 5 0, .remove 1, .dequeue] := by
+  obtain ⟨s0, hinit, hwf0, habs0, hct0, hexp, _⟩ := init_spec (lt := default_order_check) 1 (by decide) (by decide)
+  have hc0 : s0.count = 0 := by rw [← abs_length, habs0]; rfl
+  have hpre : OpPre s0 (.enqueue {} 0 3 0) := by
+    simp only [OpPre, hct0, habs0]
+    exact ⟨by decide, by decide, by simp [keys], Or.inl (by rw [hc0]; exact two_pow_pos _)⟩
+  refine ⟨s0, hinit, hpre, ?_⟩
+  intro s1 h1
+  obtain ⟨s', hrun, _, hperm, _⟩ := enqueue_refines hwf0 {} 0 3 0 hpre.1 hpre.2.1 hpre.2.2.1 hpre.2.2.2
+  have hs1 : s' = s1 := by simpa [step, hrun] using h1
+  subst hs1
+  refine ⟨?_, fun _ _ => ⟨(by decide : (1 : Nat) ≠ 0), fun _ _ => ⟨trivial, fun _ _ => trivial⟩⟩⟩
+  have : (⟨1, 0, {}, 3, 0⟩ : HTag) ∈ abs s' := hperm.mem_iff.2 (by simp [KPQ.insert, norm, hct0])
+  exact List.mem_map.2 ⟨_, this, rfl⟩
+
+/-- a well-formed state that has gone through a capacity doubling exists: three automatic-key enqueues into a
+    heap created with capacity 2 -/
+example : ∃ s : HH, WF default_order_check s ∧ s.expInit = 1 ∧ 2 ≤ s.exp ∧ s.count = 3 := by
+  obtain ⟨s0, _, hwf0, habs0, hct0, hexp0, hei0⟩ := init_spec (lt := default_order_check) 1 (by decide) (by decide)
+  have hc0 : s0.count = 0 := by rw [← abs_length, habs0]; rfl
+  have hkb0 : KeysBelowCounter s0 := by intro k hk; rw [habs0] at hk; cases hk
+  have room : ∀ s : HH, WF default_order_check s → s.count ≤ 3 → s.count < 2 ^ s.exp ∨ s.exp < 31 := by
+    intro s hs hc
+    by_cases he : s.exp < 31
+    · exact Or.inr he
+    · left
+      have : 2 ^ 31 ≤ 2 ^ s.exp := Nat.pow_le_pow_right (by decide) (by omega)
+      omega
+  obtain ⟨s1, _, hwf1, _, hct1, hkb1, hc1, hei1⟩ := auto_enqueue hwf0 hkb0 {} 0 3 0 (Nat.zero_le _)
+    (by rw [hct0]; decide) (fun h => absurd rfl h) (room s0 hwf0 (by omega))
+  obtain ⟨s2, _, hwf2, _, hct2, hkb2, hc2, hei2⟩ := auto_enqueue hwf1 hkb1 {} 0 1 0 (Nat.zero_le _)
+    (by rw [hct1, hct0]; decide) (fun h => absurd rfl h) (room s1 hwf1 (by omega))
+  obtain ⟨s3, _, hwf3, _, hct3, hkb3, hc3, hei3⟩ := auto_enqueue hwf2 hkb2 {} 0 2 0 (Nat.zero_le _)
+    (by rw [hct2, hct1, hct0]; decide) (fun h => absurd rfl h) (room s2 hwf2 (by omega))
+  refine ⟨s3, hwf3, by rw [hei3, hei2, hei1, hei0], ?_, by omega⟩
+  have hle := hwf3.countLe
+  have : s3.count = 3 := by omega
+  rw [this] at hle
+  apply Classical.byContradiction
+  intro hlt
+  have : s3.exp ≤ 1 := by omega
+  have : 2 ^ s3.exp ≤ 2 ^ 1 := Nat.pow_le_pow_right (by decide) this
+  omega
 
 end CimbaModel.Props.C02
